@@ -22,6 +22,19 @@ self-referential statements (right-hand side reads the target's own storage): `s
            then store (pattern positions only; mirrored for symmetric engines); the same statement executed by the
            library on the dense Matrix is judged the same way (unmasked); `alias=0` is accepted only if target and
            source share no raw element.  Model: SM.assignExpr (is_aliased_ as coded, temporary copy / in-place path).
+compound operators (`cmp`): all eight (+= -= *= /= with an expression and with a scalar) on V = M.submatrix_on_diagonal(a,b) or
+           its .T() lvalue, right-hand sides scalar / dense Matrix / F(Y) with F in {Y, 2Y, Y.T(), 2Y+Y.T()} and Y a block of the
+           second matrix N or of M ITSELF (identical, shifted-overlapping, corner-touching, disjoint).  Directed sweep: every
+           engine x orientation x n = 1..5 x operator x form x every block pair, every run; random lines for larger n.
+           Oracle: (old V) OP (rhs evaluated on the OLD dense views) stored at the canonical positions of V's engine (mirrored
+           for symmetric engines), IEEE double arithmetic in Python; every other raw element unchanged.  Model: SM.compound /
+           SM.compoundScalar = SM.assignExpr on `noalias(*this) OP rhs` (values of `/=` compared where every quotient is an
+           integer, otherwise the alias decision only: the model's values are integers).
+active special matrices (`act`): AV = x (active scalar), AV = 5.0, AV = F(BV) for AV = A.submatrix_on_diagonal(a,b) or its .T()
+           lvalue, while recording: values AND the recorded statements (SpyStack).  Oracle: one statement per canonical
+           position of AV's engine in row order, lhs = gradient index of the stored element written (raw element named by the
+           passive read of the same position), operations as the scalar statement denotes (1*x / none / multipliers and the
+           stored elements of B, nothing for a structural zero).  Model: SM.assignActiveScalar, SM.recPassiveScalar, SM.recExpr.
 """
 import json, os, sys, time
 import vbuild, vcheck
@@ -36,7 +49,13 @@ REQUIRED = ["C17_engines_covered", "C17_zero_outside", "C17_access_overloads_agr
             "C17_read", "C17_read_mirror", "C17_write_hits_one", "C17_lvalue", "C17_transpose_view",
             "C17_rhs_traversal", "C17_expression_rows", "C17_to_dense", "C17_assign_raw", "C17_assign_view",
             "C17_diag_vector", "C17_submatrix", "C17_diag_matrix_view", "C17_alias_conservative",
-            "C17_self_assign_semantics"]
+            "C17_self_assign_semantics", "C17_compound_semantics", "C17_compound_scalar_semantics", "C17_compound_view",
+            "C17_written_positions", "C17_active_scalar_statements", "C17_passive_scalar_statements",
+            "C17_active_expr_statements", "C17_leaf_gradient"]
+
+# main + one translation unit per engine pair (engine + transpose_engine) (compiled in parallel; harness/drv_special_ops.h holds the operation table)
+DRIVERS = [os.path.join(vbuild.VERIF, "harness", f) for f in
+           ["drv_special.cpp"] + ["drv_special_g%d.cpp" % g for g in range(1, 13)]]
 
 BANDS = [(0, 0), (1, 1), (2, 2), (0, 2), (3, 1), (4, 4), (2, 0), (1, 3)]
 ENGINES = ([("SquareEngine_ROW_MAJOR", 0, 0), ("SquareEngine_COL_MAJOR", 0, 0),
@@ -135,6 +154,7 @@ def composed_ops_for(e, L, U, n, lvalue, rng, full=True):
     return out
 
 
+NDIRECTED = 5      # compound operators / active assignments: exhaustive directed sweep up to this size in every run
 BLOCK_FORMS = ("k2", "cp", "sum", "T", "mixT")
 DIAG_FORMS = ("k2", "cp", "sum", "rev")
 
@@ -159,6 +179,108 @@ def self_ops_for(e, L, U, n, rng, all_forms=True):
         for k2 in sorted({k, -k}):
             for f in DIAG_FORMS:
                 out.append("selfdiag %s %d %d %s" % (pre, k, k2, f))
+    return out
+
+
+
+CMP_OPS = ("add", "sub", "mul", "div")
+CMP_FORMS = ("cp", "k2", "T", "mixT")
+ACT_KINDS = ("x", "c", "cp", "k2", "T", "mixT")
+
+
+def transpose_engine(e, L, U):
+    """hand-written: Engine::transpose_engine"""
+    if e.startswith("SymmEngine"):
+        return (e, L, U)
+    if e.startswith("SquareEngine"):
+        return ("SquareEngine_COL_MAJOR" if e.endswith("ROW_MAJOR") else "SquareEngine_ROW_MAJOR", 0, 0)
+    if e.startswith("BandEngine"):
+        return ("BandEngine_COL_MAJOR" if e.endswith("ROW_MAJOR") else "BandEngine_ROW_MAJOR", U, L)
+    other = "Upper" if e.startswith("Lower") else "Lower"
+    return (other + "Engine_" + ("COL_MAJOR" if e.endswith("ROW_MAJOR") else "ROW_MAJOR"), 0, 0)
+
+
+def overlap_class(a, c, m):
+    d = abs(a - c)
+    return "identical" if d == 0 else "corner" if d == m - 1 else "overlap" if d < m - 1 else "disjoint"
+
+
+def cmp_line(pre, tv, a, b, op, form, src="-", c=0, d=0):
+    return "cmp %s %s %d %d %s %s %s %d %d" % (pre, tv, a, b, op, form, src, c, d)
+
+
+def cmp_ops_for(e, L, U, n, rng, directed, stats, nrandom=0):
+    """compound operators: directed = every target block x operator x orientation x form (right-hand sides in the
+    target's own storage for EVERY equal-size source block; scalar / dense / second-matrix operands for the aligned
+    block); otherwise `nrandom` random lines"""
+    pre = "%s %d %d %d" % (e, L, U, n)
+    out = []
+
+    def add(tv, a, b, op, form, src="-", c=0, d=0):
+        out.append(cmp_line(pre, tv, a, b, op, form, src, c, d))
+        if src == "m":
+            key = "self:" + overlap_class(a, c, b - a + 1)
+        else:
+            key = {"-": "scalar" if form == "c" else "dense", "n": "other-matrix"}[src]
+        tk = "target:" + ("whole" if (a, b) == (0, n - 1) else "block") + (".T()" if tv == "t" else "")
+        for k in (key, "op:" + op, tk):
+            stats[k] = stats.get(k, 0) + 1
+
+    if directed:
+        for m in range(n, 0, -1):
+            for a in range(0, n - m + 1):
+                for tv in ("v", "t"):
+                    for op in CMP_OPS:
+                        add(tv, a, a + m - 1, op, "c")
+                        add(tv, a, a + m - 1, op, "D")
+                        for f in CMP_FORMS:
+                            add(tv, a, a + m - 1, op, f, "n", a, a + m - 1)
+                            for c in range(0, n - m + 1):
+                                add(tv, a, a + m - 1, op, f, "m", c, c + m - 1)
+        if n >= 2:
+            out.append(cmp_line(pre, "v", 0, n - 1, "sub", "cp", "m", 0, n - 2))    # size mismatch
+            out.append(cmp_line(pre, "t", 0, n - 2, "add", "k2", "m", 1, n))        # source out of range
+            out.append(cmp_line(pre, "v", -1, n - 2, "mul", "c"))                   # target out of range
+    for _ in range(nrandom):
+        m = rng.randint(1, n)
+        a = rng.randint(0, n - m)
+        tv, op = rng.choice("vt"), rng.choice(CMP_OPS)
+        r = rng.random()
+        if r < 0.1:
+            add(tv, a, a + m - 1, op, "c")
+        elif r < 0.2:
+            add(tv, a, a + m - 1, op, "D")
+        elif r < 0.35:
+            c = rng.randint(0, n - m)
+            add(tv, a, a + m - 1, op, rng.choice(CMP_FORMS), "n", c, c + m - 1)
+        else:
+            # near the target: identical / overlapping / corner / just disjoint more often than far away
+            c = min(max(a + rng.choice((0, 0, 1, -1, m - 1, 1 - m, m, -m, rng.randint(-n, n))), 0), n - m)
+            add(tv, a, a + m - 1, op, rng.choice(CMP_FORMS), "m", c, c + m - 1)
+    return out
+
+
+def act_ops_for(e, L, U, n, rng, directed, stats, nrandom=0):
+    """assignments to active matrices: directed = every block x orientation x kind; otherwise random lines"""
+    pre = "%s %d %d %d" % (e, L, U, n)
+    out = []
+
+    def add(tv, a, b, kind):
+        out.append("act %s %s %d %d %s" % (pre, tv, a, b, kind))
+        tk = "target:" + ("whole" if (a, b) == (0, n - 1) else "block") + (".T()" if tv == "t" else "")
+        for k in ("kind:" + kind, tk):
+            stats[k] = stats.get(k, 0) + 1
+
+    if directed:
+        for a in range(n):
+            for b in range(a, n):
+                for tv in ("v", "t"):
+                    for kind in ACT_KINDS:
+                        add(tv, a, b, kind)
+        out.append("act %s v 0 %d x" % (pre, n))        # out of range
+    for _ in range(nrandom):
+        a = rng.randint(0, n - 1)
+        add(rng.choice("vt"), a, rng.randint(a, n - 1), rng.choice(ACT_KINDS))
     return out
 
 
@@ -353,6 +475,10 @@ class Judge:
                 return self.judge_self(op, args, out)
             if op in ("sinfo", "sdiag", "sTdiag", "swrdiag", "swr", "sT", "ssub", "sassign"):
                 return self.judge_composed(op, args, out)
+            if op == "cmp":
+                return self.judge_cmp(args, out)
+            if op == "act":
+                return self.judge_act(args, out)
             if op in ("expr", "exprT"):
                 N = self.dn()
                 if op == "exprT":
@@ -565,11 +691,205 @@ def _judge_composed(self, op, args, out):
 Judge.judge_composed = _judge_composed
 
 
+
+def nums(s):
+    if s == "-":
+        return []
+    return [float(x) for x in s.split(",")]
+
+
+def fmt(v):
+    return "%d" % v if v == v and abs(v) < 1e15 and v == int(v) else repr(v)
+
+
+def apply_op(op, x, y):
+    """IEEE double arithmetic of the element-wise operation (Python floats are IEEE doubles)"""
+    if op == "add":
+        return x + y
+    if op == "sub":
+        return x - y
+    if op == "mul":
+        return x * y
+    if y == 0:
+        return float("nan") if x == 0 or x != x else (float("inf") if x > 0 else float("-inf"))
+    return x / y
+
+
+OPSYM = {"add": "+=", "sub": "-=", "mul": "*=", "div": "/="}
+
+
+def view_geometry(self, tv, a):
+    """the view V = M.submatrix_on_diagonal(a,b) (tv = v) or its .T() (tv = t): engine of V and the position of M that
+    V(i,j) stands for"""
+    ve = (self.e, self.L, self.U) if tv == "v" else transpose_engine(self.e, self.L, self.U)
+    pos = (lambda i, j: (a + i, a + j)) if tv == "v" else (lambda i, j: (a + j, a + i))
+    return ve, pos
+
+
+def _judge_cmp(self, args, out):
+    """compound operator on a view of M: (old V) OP rhs, rhs evaluated on the OLD dense views, stored at the canonical
+    positions of V's engine; everything else unchanged"""
+    e, L, U, n, D = self.e, self.L, self.U, self.n, self.D
+    tv, op, form, src = args[0], args[3], args[4], args[5]
+    a, b, c, d = int(args[1]), int(args[2]), int(args[6]), int(args[7])
+    leaf = form in CMP_FORMS
+    ok = lambda lo, hi: 0 <= lo <= hi < n
+    if not ok(a, b) or (leaf and not ok(c, d)):
+        return None if out == "oob" else "submatrix_on_diagonal with an invalid range did not throw: %s" % out[:60]
+    if leaf and b - a != d - c:
+        return None if out == "mismatch" else "blocks of different size did not throw size_mismatch: %s" % out[:60]
+    m = b - a + 1
+    dv = op == "div"
+    fm = (lambda k: 8.0 * (k + 1)) if dv else (lambda k: k + 1.0)
+    fn = (lambda k: float((1, 2, 4)[k % 3])) if dv else (lambda k: 1001.0 + k)
+    Mold = lambda I, J: fm(D[I * n + J] - 1) if D[I * n + J] else 0.0
+    Nold = lambda I, J: fn(D[I * n + J] - 1) if D[I * n + J] else 0.0
+    (ve, vL, vU), pos = view_geometry(self, tv, a)
+    S = Mold if src == "m" else Nold
+    Y = (lambda i, j: S(c + i, c + j)) if tv == "v" else (lambda i, j: S(c + j, c + i))
+    Ypos = (lambda i, j: (c + i, c + j)) if tv == "v" else (lambda i, j: (c + j, c + i))
+    R = {"c": lambda i, j: 2.0,
+         "D": (lambda i, j: float((1, 2, 4)[(i + 2 * j) % 3])) if dv else (lambda i, j: 100.0 * i + j + 1),
+         "cp": Y, "k2": lambda i, j: 2.0 * Y(i, j), "T": lambda i, j: Y(j, i),
+         "mixT": lambda i, j: 2.0 * Y(i, j) + Y(j, i)}[form]
+    vname = "M.submatrix_on_diagonal(%d,%d)%s" % (a, b, ".T()" if tv == "t" else "")
+    yname = "%s.submatrix_on_diagonal(%d,%d)%s" % ("M" if src == "m" else "N", c, d, ".T()" if tv == "t" else "")
+    stmt = "%s %s %s" % (vname, OPSYM[op], {"c": "2.0", "D": "Dn", "cp": "Y", "k2": "2.0*Y", "T": "Y.T()", "mixT": "2.0*Y + Y.T()"}[form]
+                         .replace("Y", yname))
+    if out in ("oob", "mismatch"):
+        return "%s threw (%s)" % (stmt, out)
+    fl = fields(out)
+    view, raw = nums(fl["view"]), nums(fl["raw"])
+    want_view = [Mold(i, j) for i in range(n) for j in range(n)]
+    want_raw = [fm(k) for k in range(len(raw))]
+    target_raw = set()
+    for i in range(m):
+        for j in range(m):
+            if not canonical(ve, vL, vU, i, j):
+                continue
+            I, J = pos(i, j)
+            v = apply_op(op, Mold(I, J), R(i, j))
+            want_view[I * n + J] = v
+            if is_symm(e):
+                want_view[J * n + I] = v
+            want_raw[D[I * n + J] - 1] = v
+            target_raw.add(D[I * n + J])
+    for k in range(n * n):
+        if view[k] != want_view[k]:
+            return ("after %s M(%d,%d)=%s, but (old target) %s (right-hand side on the old values) on the dense equivalents gives %s "
+                    "[alias=%s]" % (stmt, k // n, k % n, fmt(view[k]), OPSYM[op][0], fmt(want_view[k]), fl["alias"]))
+    if raw != want_raw:
+        k = [x != y for x, y in zip(raw, want_raw)].index(True)
+        return "after %s raw element %d holds %s, expected %s" % (stmt, k, fmt(raw[k]), fmt(want_raw[k]))
+    if fl["alias"] == "0" and leaf and src == "m":
+        read = set()
+        for i in range(m):
+            for j in range(m):
+                I, J = Ypos(i, j)
+                if self.pat(I, J):
+                    read.add(D[I * n + J])
+        shared = target_raw & read
+        if shared:
+            return "%s: is_aliased reports no aliasing although target and source share raw element(s) %s" % (
+                stmt, sorted(x - 1 for x in shared)[:4])
+    return None
+
+
+Judge.judge_cmp = _judge_cmp
+
+
+def _judge_act(self, args, out):
+    """assignment to an active view while recording: values and the recorded statements"""
+    e, L, U, n, D = self.e, self.L, self.U, self.n, self.D
+    tv, a, b, kind = args[0], int(args[1]), int(args[2]), args[3]
+    if not (0 <= a <= b < n):
+        return None if out == "oob" else "submatrix_on_diagonal with an invalid range did not throw: %s" % out[:60]
+    m = b - a + 1
+    (ve, vL, vU), pos = view_geometry(self, tv, a)
+    vname = "A.submatrix_on_diagonal(%d,%d)%s" % (a, b, ".T()" if tv == "t" else "")
+    stmt = "%s = %s" % (vname, {"x": "x", "c": "5.0", "cp": "BV", "k2": "2.0*BV", "T": "BV.T()", "mixT": "2.0*BV + BV.T()"}[kind])
+    if out in ("oob", "mismatch"):
+        return "%s threw (%s)" % (stmt, out)
+    fl = fields(out)
+    view, raw = nums(fl["view"]), nums(fl["raw"])
+    tape = [] if fl["tape"] == "-" else fl["tape"].split(";")
+    Bold = lambda I, J: 1000.0 + D[I * n + J] if D[I * n + J] else 0.0
+    Bv = lambda i2, j2: Bold(*pos(i2, j2))
+
+    def bterm(mult, i, j):      # what the leaf BV pushes when it is read at V-coordinates (i,j)
+        I, J = pos(i, j)
+        return ["%d*b%d" % (mult, D[I * n + J] - 1)] if self.pat(I, J) else []
+
+    want_view = [float(v) for v in D]
+    want_raw = [k + 1.0 for k in range(len(raw))]
+    want_tape = []
+    for i in range(m):
+        for j in range(m):
+            if not canonical(ve, vL, vU, i, j):
+                continue
+            I, J = pos(i, j)
+            if kind == "x":
+                v, ops = 7.0, ["1*x"]
+            elif kind == "c":
+                v, ops = 5.0, []
+            elif kind == "cp":
+                v, ops = Bv(i, j), bterm(1, i, j)
+            elif kind == "k2":
+                v, ops = 2.0 * Bv(i, j), bterm(2, i, j)
+            elif kind == "T":
+                v, ops = Bv(j, i), bterm(1, j, i)
+            else:
+                v, ops = 2.0 * Bv(i, j) + Bv(j, i), bterm(2, i, j) + bterm(1, j, i)
+            want_view[I * n + J] = v
+            if is_symm(e):
+                want_view[J * n + I] = v
+            want_raw[D[I * n + J] - 1] = v
+            want_tape.append("a%d:%s" % (D[I * n + J] - 1, "+".join(ops)))
+    for k in range(n * n):
+        if view[k] != want_view[k]:
+            return "after %s (active, recording) A(%d,%d)=%s, the dense equivalent has %s" % (stmt, k // n, k % n, fmt(view[k]), fmt(want_view[k]))
+    if raw != want_raw:
+        k = [x != y for x, y in zip(raw, want_raw)].index(True)
+        return "after %s (active, recording) raw element %d holds %s, expected %s" % (stmt, k, fmt(raw[k]), fmt(want_raw[k]))
+    if tape != want_tape:
+        k = min(len(tape), len(want_tape))
+        for t in range(k):
+            if tape[t] != want_tape[t]:
+                k = t
+                break
+        return ("%s (active, recording): recorded statement %d is `%s`, expected `%s` (lhs = gradient index of the stored element "
+                "written, in row order; %d statements recorded, %d stored positions written)" % (
+                    stmt, k, tape[k] if k < len(tape) else "<none>", want_tape[k] if k < len(want_tape) else "<none>",
+                    len(tape), len(want_tape)))
+    return None
+
+
+Judge.judge_act = _judge_act
+
+
 def model_text(op, out):
     """the part of an implementation line that the Lean model reproduces (the dense Matrix statement is not modelled)"""
     if op.startswith("self") and " dense=" in out:
         return out[:out.index(" dense=")]
     return out
+
+
+def integral_values(out):
+    try:
+        f = fields(out)
+        return all(v == int(v) for v in nums(f["raw"]) + nums(f["view"]))
+    except Exception:
+        return False
+
+
+def model_pair(op, args, out, mline):
+    """(implementation text, model text) to compare.  The model's values are integers: for `/=` the values are
+    compared where every quotient is an integer, otherwise only the alias decision (the values are then judged by the
+    oracle alone)."""
+    if op == "cmp" and args[3] == "div" and " raw=" in out and not integral_values(out):
+        cut = lambda t: t[:t.index(" raw=")] if (t and " raw=" in t) else t
+        return cut(out), cut(mline)
+    return model_text(op, out), mline
 
 
 def split_line(line):
@@ -622,7 +942,7 @@ def run_lines(ctx, exe, lines, model_ok, label="main"):
         if msg is not None:
             nbad += 1
             ctx.cov["oracle_failures"] = ctx.cov.get("oracle_failures", 0) + 1
-            sig = signature(e, L, U, op)
+            sig = signature(e, L, U, op if op not in ("cmp", "act") else "%s:%s" % (op, args[3]))
             if msg.startswith("DENSE:"):      # the special matrix is right; the dense Array statement is not (C04's subject)
                 sig, msg = sig + ":dense-statement", msg[6:]
             if sig in ctx.seen_sigs:      # one report per (engine, operation); sizes are visited in increasing order
@@ -633,12 +953,14 @@ def run_lines(ctx, exe, lines, model_ok, label="main"):
                            "impl": out, "model": (model[k] if model and k < len(model) else None), "message": msg,
                            "cpp_type": TYPEDEFS.get((e, L, U), "SpecialMatrix<Real,%s%s>" % (e, "<%d,%d>" % (L, U) if e.startswith("Band") else "")),
                            "signature": sig})
-        elif model is not None and (k >= len(model) or model[k] != model_text(op, out)):
+        elif model is not None and (k >= len(model) or (lambda pr: pr[0] != pr[1])(model_pair(op, args, out, model[k]))):
             ctx.cov["disagreements_checked"] += 1
             if len(ctx.pending) < 3:
                 ctx.pending.append({"kind": "correspondence",
                                     "correspondence": "AdeptModel/Generated/Engines.lean + AdeptModel/Special.lean <-> SpecialMatrix.h",
                                     "ops": [line], "impl": model_text(op, out), "model": model[k] if k < len(model) else None})
+        elif model is not None and op == "cmp" and args[3] == "div" and " raw=" in out and not integral_values(out):
+            ctx.cov["div_values_oracle_only"] = ctx.cov.get("div_values_oracle_only", 0) + 1
     ctx.cov["traces_validated_against_impl"] += len(lines) if model is not None else 0
     tm["oracle"] = round(tm["oracle"] + time.time() - t0, 1)
     return nbad
@@ -676,7 +998,7 @@ def run(ctx, replay):
             if not model_ok:
                 ctx.notes["model_driver_build"] = out[-1500:]
     # 3 build impl
-    exe = vbuild.build("special", os.path.join(vbuild.VERIF, "harness", "drv_special.cpp"))
+    exe = vbuild.build("special", DRIVERS)
     lv = caps(exe)
     ctx.notes["passive_lvalue_compiles"] = {"%s(%d,%d)" % k: v for k, v in lv.items() if not v}
     if replay:
@@ -700,6 +1022,8 @@ def run(ctx, replay):
     ctx.notes["sizes_compositions"] = "1..%d" % ncomp
     ctx.notes["engines"] = ["%s(%d,%d)" % k for k in ENGINES]
     bad = 0
+    nrand = 60 if ctx.tier == "quick" else 400
+    cmp_stats, act_stats = {}, {}
     for (e, L, U) in ENGINES:
         lines = []
         for n in range(1, nmax + 1):
@@ -708,7 +1032,17 @@ def run(ctx, replay):
                 lines += composed_ops_for(e, L, U, n, lv[(e, L, U)], ctx.rng, full=(n <= 6))
             if n <= nself:
                 lines += self_ops_for(e, L, U, n, ctx.rng, all_forms=(n <= 7))
+            lines += cmp_ops_for(e, L, U, n, ctx.rng, n <= NDIRECTED, cmp_stats, nrandom=(0 if n <= NDIRECTED else nrand))
+            lines += act_ops_for(e, L, U, n, ctx.rng, n <= NDIRECTED, act_stats, nrandom=(0 if n <= NDIRECTED else nrand // 2))
         bad += run_lines(ctx, exe, lines, model_ok)
+    ctx.notes["compound_operator_inputs"] = dict(sorted(cmp_stats.items()))
+    ctx.notes["active_assignment_inputs"] = dict(sorted(act_stats.items()))
+    ctx.notes["compound_and_active_distribution"] = (
+        "directed sweep for n = 1..%d in every run: every engine x {V, V.T()} x every target block x {+=,-=,*=,/=} x {scalar, dense, "
+        "F(N block), F(M block c..c+m-1 for EVERY c)} with F in {Y, 2Y, Y.T(), 2Y+Y.T()}; every block x {V, V.T()} x {x, 5.0, BV, 2BV, "
+        "BV.T(), 2BV+BV.T()} for active matrices; n = %d..%d: %d random compound lines (65%% on the target's own storage, source block "
+        "at distance 0, +-1, +-(m-1), +-m or uniform; 15%% second matrix, 10%% scalar, 10%% dense) and %d random active lines per "
+        "engine and size" % (NDIRECTED, NDIRECTED + 1, nmax, nrand, nrand // 2))
     ctx.cov["rule"] = ("every op line `<op> <engine> <L> <U> <n> args` is one evaluation: 24 engine instantiations (7 typedefs, their "
                        "column-major / opposite-orientation counterparts, band shapes (0,0) (1,1) (2,2) (0,2) (3,1) (4,4) (2,0) (1,3) in both "
                        "orders) x n = 1..%d x {info, get, ptr, dense, fromdense s/a, scalar, T, expr, exprT, assign, assignT} + write at "
@@ -722,13 +1056,19 @@ def run(ctx, replay):
                        "identical) x F in {2X, X, 2X+X, X.T(), 2X+X.T()} (n > 7: 2X + one random F away from the corner cases), M = M.T(), "
                        "M = 2.0*M + M, M.diag_vector(k) = F(M.diag_vector(+-k)) for every k x {2w, w, 2w+w, 2*reversed w}, each also executed "
                        "on the dense Matrix and judged by evaluate-then-store on the old dense view; each result compared with the model (exact text) and judged by the dense-equivalent oracle; "
+                       "+ compound operators (cmp) and assignments to active matrices with the recorded statements (act): see "
+                       "notes.compound_and_active_distribution; "
                        "non-trivial = n >= 2; distinct = different op line" % (nmax, ncomp, nself))
     ctx.cov["exhaustive"] = True
     ctx.cov["exhaustive_domain"] = "all (i,j), all k, all (a,b) for the listed engines and sizes"
     ctx.assumptions += ["C++ Index arithmetic does not overflow (the Lean model is over unbounded Int)",
                         "aliasing right-hand sides: special-matrix leaves on the target's own storage (blocks, transposes, the matrix "
                         "itself) and diag_vector views; aliasing through dense Array views of other kinds is C04's subject",
-                        "values are small integers, exact in double"]
+                        "values are small integers, exact in double (compound `/=`: IEEE quotients, judged by the oracle in double "
+                        "arithmetic; compared with the integer-valued model where every quotient is an integer, otherwise the model "
+                        "is compared on the alias decision only — counted in coverage.div_values_oracle_only)",
+                        "Engine::push_rhs (not translated) pushes exactly where Engine::value_at_location reads a stored element "
+                        "(same test in the header; the correspondence runs compare every recorded operation)"]
     if (fails or ctx.pending) and not ctx.violations and ctx.tier == "quick":
         # a proof or the correspondence broke and the quick sizes show no property failure: search further with the oracle
         for (e, L, U) in ENGINES:
@@ -738,6 +1078,8 @@ def run(ctx, replay):
             for n in range(8, 11):
                 lines += (["info %s %d %d %d" % (e, L, U, n), "get %s %d %d %d" % (e, L, U, n)]
                           + self_ops_for(e, L, U, n, ctx.rng, all_forms=False)
+                          + cmp_ops_for(e, L, U, n, ctx.rng, False, {}, nrandom=200)
+                          + act_ops_for(e, L, U, n, ctx.rng, False, {}, nrandom=100)
                           + (composed_ops_for(e, L, U, n, lv[(e, L, U)], ctx.rng, full=False) if n == 8 else []))
             run_lines(ctx, exe, lines, False, "search")
         ctx.notes["extended_search"] = "n = 10..12, oracle only"
